@@ -622,7 +622,7 @@ def hooked_check(ctx):
     return len(second), nbad, nlag
 
 
-def hooked_pairs_check(ctx):
+def hooked_pairs_check(ctx, only=None, pid="C11"):
     """two requests that update the same thing: the first stands still before each of its store actions while the second is sent
     (it runs to its end, or waits for a lock the first one holds and finishes afterwards); what can be read when both are done is
     what one of the two sequential orders leaves"""
@@ -660,6 +660,8 @@ def hooked_pairs_check(ctx):
                 ("pull-by-digest/delete-by-digest", [], manifest_get(repo, dg("sha256", other)), manifest_delete(repo, dg("sha256", other))),
                 ("list-tags/delete-tag", [], tag_list(repo), manifest_delete(repo, "other"))]
             pre0 = pre
+            if only is not None:
+                pairs = [p_ for p_ in pairs if p_[0] in only]
             for name, morepre, r1, r2 in pairs:
                 pre = pre0 + morepre
                 r1, r2 = dict(r1, phase="post", role=1), dict(r2, phase="post", role=2)
@@ -711,7 +713,7 @@ def hooked_pairs_check(ctx):
             diff = [(reads[k]["impl"]["path"], got[k], a12[k], a21[k]) for k in range(len(reads)) if got[k] != a12[k] or got[k] != a21[k]]
             ctx.violation("%s on the %s store, the first request standing before its store action %d (%s) while the second is sent: when both are done %s"
                           % (name, store, at, acts[at - 1], "; ".join("%s answers %s (first-then-second %s, second-then-first %s)" % d for d in diff)[:700]),
-                          dict(case=replayable(byid[cid]), scenario=name, before_action=acts[at - 1], actions=acts), "C11:pair-%s" % name.replace("/", "-vs-"))
+                          dict(case=replayable(byid[cid]), scenario=name, before_action=acts[at - 1], actions=acts), "%s:pair-%s" % (pid, name.replace("/", "-vs-")))
     return n, nbad
 
 
